@@ -133,6 +133,8 @@ struct Ctx {
     /// a second, single-threaded runtime: a client object may be driven from more than one runtime in its life
     alt_rt: Arc<tokio::runtime::Runtime>,
     use_alt: bool,
+    /// the caller drops the response without reading its document (octets of the answer stay on the connection)
+    drop_early: bool,
 }
 
 fn attrs_len_of(p: &Plan) -> usize {
@@ -235,6 +237,8 @@ impl Ctx {
             let sa = shared_a.clone();
             let rt = self.rt.handle().clone();
             let (alt_rt, use_alt) = (self.alt_rt.clone(), self.use_alt);
+            let drop_early = self.drop_early;
+            let exp = if drop_early { vec![] } else { exp };
             let big = pay.len() > 4096;
             handles.push(std::thread::spawn(move || {
                 let t0 = Instant::now();
@@ -249,7 +253,9 @@ impl Ctx {
                         let r = sb.send(req).map(|resp| {
                             let mj = msg_json(&resp);
                             let mut v = vec![];
-                            let _ = resp.into_payload().read_to_end(&mut v);
+                            if !drop_early {
+                                let _ = resp.into_payload().read_to_end(&mut v);
+                            }
                             (mj, v)
                         });
                         result_json(r, &exp)
@@ -264,8 +270,10 @@ impl Ctx {
                                 Ok(resp) => {
                                     let mj = msg_json(&resp);
                                     let mut v = vec![];
-                                    let mut p = resp.into_payload();
-                                    let _ = futures_util::io::AsyncReadExt::read_to_end(&mut p, &mut v).await;
+                                    if !drop_early {
+                                        let mut p = resp.into_payload();
+                                        let _ = futures_util::io::AsyncReadExt::read_to_end(&mut p, &mut v).await;
+                                    }
                                     Ok((mj, v))
                                 }
                                 Err(e) => Err(e),
@@ -359,7 +367,7 @@ pub fn run(a: &Args) {
     let server6 = std::panic::catch_unwind(|| Server::start(mk_responder(plans.clone()), true)).ok();
     let rt = tokio::runtime::Builder::new_multi_thread().worker_threads(4).enable_all().build().unwrap();
     let mut cx = Ctx { drip_total: 0, sink: Sink::new(&out, "trace"), plans, server4, server6, rt, n: 0, samples: vec![], reuse: None, past: std::collections::HashSet::new(), stale_dropped: 0,
-        alt_rt: Arc::new(tokio::runtime::Builder::new_current_thread().enable_all().build().unwrap()), use_alt: false };
+        alt_rt: Arc::new(tokio::runtime::Builder::new_current_thread().enable_all().build().unwrap()), use_alt: false, drop_early: false };
     let p4 = cx.server4.port;
     let mut r = Rng::new(seed);
     let cfgs = [
@@ -554,11 +562,14 @@ pub fn run(a: &Args) {
                 // the peer keeps the connection alive (as CUPS does); the first two sends are driven by a second,
                 // single-threaded runtime that stays alive but idle afterwards
                 cx.use_alt = round < 2;
-                let plans = (1..=5u32).map(|i| mk_plan(i, ["length-ka", "chunked-ka", "length-ka", "close"][(round + i as usize) % 4], 200, None, false, 0, round + i as usize, 10 * round + i as usize)).collect();
+                // in rounds 1 and 3 the caller drops the response without reading its (large) document
+                cx.drop_early = round % 2 == 1;
+                let plans = (1..=5u32).map(|i| mk_plan(i, ["length-ka", "chunked-ka", "length-ka", "close"][(round + i as usize) % 4], 200, None, false, 0, round + i as usize, if round % 2 == 1 { 300_000 } else { 10 * round + i as usize })).collect();
                 cx.exchange("the same client object again, request-id 1 as the builders give it", vec![(1, kind, targets4[1].clone(), cfgs[1].clone(), pattern(100 + 1000 * round, round as u32), round)], plans, None, false);
             }
             cx.reuse = None;
             cx.use_alt = false;
+            cx.drop_early = false;
         }
     }
     // (H) a slow but never silent server: the answer dribbles in for longer than the request timeout
